@@ -275,7 +275,7 @@ class Obligation:
 
 
 FEAS_TIMEOUT_MS = 10000
-FEAS_RLIMIT = 6000000
+FEAS_RLIMIT = 15000000
 
 
 class FreshSolver:
@@ -1325,7 +1325,7 @@ class Engine:
                     v = sorted(v, key=repr)
                 return [C(x) for x in v]
             self.unsupported(node, 'iteration over %r' % (v,))
-        if isinstance(it, (SItems, SQuant)):
+        if isinstance(it, (SItems, SQuant, SRange)):
             return None
         if isinstance(it, T):
             t = z3.simplify(it.t)
@@ -2150,6 +2150,25 @@ def _spec_uf(self, fn, args, kwargs):
         app = f(*allargs)
         res = T(app)
         self.axiom(app != Val.VAbsent)      # a specification function denotes a python value
+        fk = getattr(fn, '_facts', None)
+        if fk is not None and not getattr(self, '_in_facts', False):
+            # a lemma about the function (proved separately, see lemmas/): instantiated here
+            self._in_facts = True
+            old_fc, old_ud = self.fail_conds, self.unfold_depth
+            self.fail_conds = None
+            self.unfold_depth = 1000
+            try:
+                r = self.call_function(fk, list(args) + [res], {})
+                self.scoped_assume(_zb(self.truth(r)))
+            finally:
+                self._in_facts = False
+                self.fail_conds, self.unfold_depth = old_fc, old_ud
+            self.assumptions.add('lemma about %s used: %s' % (fn.__name__, (fk.__doc__ or fk.__name__).strip()))
+        rk = getattr(fn, '_result_kind', None)
+        if rk == 'dict':
+            self.axiom(Val.is_VDict(app))
+        elif rk == 'list':
+            self.axiom(Val.is_VList(app))
     # the definitional equation is recorded guarded by the scope it was
     # evaluated in, so it is re-derived when the same application occurs under
     # different scope conditions
@@ -2198,6 +2217,9 @@ Engine._spec_uf = _spec_uf
 def _elem_source(self, it, node):
     """(n, elem(i) -> SV or tuple of SVs) for a symbolic iteration source."""
     V = Val
+    if isinstance(it, SRange):
+        n = z3.simplify(z3.If(it.n > 0, it.n, 0))
+        return n, (lambda i: T(V.VInt(i)))
     if isinstance(it, SItems):
         t = it.t
         n = V.dn(t)
@@ -2239,7 +2261,19 @@ def _elem_source(self, it, node):
             self.fail_if(z3.Not(ok), TypeError, 'not iterable')
             k = self.path.choose([isl, ist, isd], ['list', 'tuple', 'dict'])
             return self._elem_source(it, node)
-    raise Unsupported('iteration source %r' % (it,))
+        # specification mode, kind not determined: the generic reading
+        n = z3.If(isl, V.llen(t), z3.If(ist, V.tlen(t), z3.If(isd, V.dn(t), z3.IntVal(0))))
+        arr = z3.If(isl, V.larr(t), z3.If(ist, V.tarr(t), V.dk(t)))
+        return n, (lambda i: T(z3.Select(arr, i)))
+    raise Unsupported('iteration source %s' % (str(it)[:200],))
+
+
+class SRange(SV):
+    """range(n) with a symbolic bound"""
+    __slots__ = ('n',)
+
+    def __init__(self, n):
+        self.n = n
 
 
 class SItems(SV):
